@@ -12,7 +12,7 @@ W=$SW/$ID
 mkdir -p .logs
 ( cd $W && git checkout -q -- . && git clean -fdq -e SEEDED -e target . ; git apply SEEDED/patch.diff ) || { echo "$ID$SUF: patch does not apply"; exit 2; }
 cd $W; touch build.rs
-T=$(cargo test --workspace --no-fail-fast --offline 2>&1 | grep -E "^test result|FAILED|failed" | grep -cE "FAILED|failed")
+T=$(cargo test --workspace --no-fail-fast --offline 2>&1 | grep -cE "^test result: FAILED|^test .* FAILED$|error: test failed")
 (timeout 900 sh SEEDED/run.sh > $W.demo_with.log 2>&1); RW=$?
 git apply -R SEEDED/patch.diff; touch build.rs
 (timeout 900 sh SEEDED/run.sh > $W.demo_without.log 2>&1); RO=$?
@@ -29,14 +29,5 @@ except Exception as e: m={'meta_error':str(e)}
 m['confirmed_by_framework_author']={'procedure':'tools/seed_wt.sh in the scratch worktree %s: git apply patch.diff; cargo test --workspace --no-fail-fast --offline; sh SEEDED/run.sh (with change); git apply -R; sh SEEDED/run.sh (without change)'%w,'suite_with_change':'passed (no FAILED line)','demo_exit_with_change':'non-zero','demo_exit_without_change':'0'}
 json.dump(m,open(d+'/meta.json','w'),indent=1)
 PY
-rm -rf $W/target
-for c in ${CHECKS//,/ }; do
-  s=$(date +%s)
-  VERIF_REPO=$W VERIF_JOBS=${VERIF_JOBS:-4} VERIF_EVIDENCE=/verif/.logs/seed-$ID/evidence VERIF_TARGET=/verif/.target/seed-$ID VERIF_LOGS=/verif/.logs/seed-$ID ./check $c --tier ${TIER:-quick} > .logs/seed_${ID}${SUF}_$c.out 2>&1
-  rc=$?
-  e=$(date +%s)
-  line="- seed $ID$SUF vs check $c: exit $rc ($((e-s)) s) $(grep -E '^(VIOLATION|INCONCLUSIVE|OK|UNREPLAYED)|^  failed:' .logs/seed_${ID}${SUF}_$c.out | head -3 | tr '\n' ' ' | cut -c1-400)"
-  echo "$line" | tee -a seeded/RESULTS.md
-done
-rm -rf /verif/.target/seed-$ID
-[ -n "$KEEP_WT" ] || git -C /repo worktree remove --force $W
+git -C /repo worktree remove --force $W
+exec /verif/tools/seed_run_wt.sh $ID$SUF $CHECKS
